@@ -112,8 +112,22 @@ fn stderr_since(pos: u64) -> String {
     }
 }
 
+/// runs whose thread is still alive (a run that timed out keeps running: its `error:` lines would
+/// land in the capture window of whatever runs next)
+pub static ACTIVE: std::sync::atomic::AtomicUsize = std::sync::atomic::AtomicUsize::new(0);
+
+struct ActiveGuard;
+impl Drop for ActiveGuard {
+    fn drop(&mut self) {
+        ACTIVE.fetch_sub(1, Ordering::SeqCst);
+    }
+}
+
 #[derive(Debug, Clone, Default)]
 pub struct ImplRun {
+    /// an earlier run of this process had not finished when this one started: the stderr capture
+    /// (error_lines, stderr) may contain its lines and must not be compared
+    pub contaminated: bool,
     pub compiled: bool,
     pub compile_err: String,
     pub diags: Vec<(String, Vec<(usize, usize)>)>,
@@ -139,9 +153,17 @@ pub fn run(query: &str, input: &[u8], mode: &str, timeout_s: u64) -> ImplRun {
     let inp = input.to_vec();
     let m = mode.to_string();
     let (tx, rx) = mpsc::channel();
+    // let a run that overran its time limit finish first (bounded wait)
+    let t0 = std::time::Instant::now();
+    while ACTIVE.load(Ordering::SeqCst) > 0 && t0.elapsed().as_secs() < 240 {
+        std::thread::sleep(Duration::from_millis(20));
+    }
+    let contaminated = ACTIVE.load(Ordering::SeqCst) > 0;
     let panics_before = PANICS.load(Ordering::SeqCst);
     let pos = stderr_pos();
+    ACTIVE.fetch_add(1, Ordering::SeqCst);
     std::thread::spawn(move || {
+        let _guard = ActiveGuard;
         let r = std::panic::catch_unwind(move || {
             let rec = Recorder::default();
             let qc = QueryContainer::new(q, Box::new(rec.clone()));
@@ -184,6 +206,7 @@ pub fn run(query: &str, input: &[u8], mode: &str, timeout_s: u64) -> ImplRun {
     let err = stderr_since(pos);
     out.error_lines = err.lines().filter(|l| l.starts_with("error:")).count();
     out.stderr = err;
+    out.contaminated = contaminated;
     out
 }
 
